@@ -8,6 +8,7 @@ Bind:   every exported configuration (format x path/zip x counters default/renam
         written files (size, md5, data rows - inside the zip for dump_to_zip) and TLC evaluates the C09 clauses on
         (recorded, measured) and compares the model's counters with the recorded ones.
 """
+import contextlib
 import copy
 import csv
 import hashlib
@@ -180,6 +181,52 @@ def dump_once(case, root, tag):
     return written, stats, dp.descriptor, incoming.get('d', {}), read, dsize
 
 
+def xlsx_case(item):
+    """the Excel writer saves its file BY NAME (not through the handle the dumper holds): bytes, hash and rows recorded for an .xlsx file
+    are still those of the file that was written (an .xlsx file holds its creation time, so two dumps are not byte-identical: the
+    reproducibility clause is checked for csv / json only)"""
+    import dataflows as DF
+    import openpyxl
+    setup_repo()
+    shape, target = item['shape'], item['target']
+    root = tempfile.mkdtemp(prefix='c09x-', dir=tlc.WORK_ROOT)
+    try:
+        from ..common import tuple_source
+        src = tuple_source([('res.%d' % (i + 1), [('a', 'integer'), ('b', 'string')], [dict(a=k, b=u'x\u00e9%d' % k) for k in range(n)]) for i, n in enumerate(shape)])
+        out = os.path.join(root, 'o')
+        try:
+            with contextlib.redirect_stdout(io.StringIO()), contextlib.redirect_stderr(io.StringIO()):
+                if target == 'path':
+                    dp, stats = DF.Flow(src, DF.dump_to_path(out, format='xlsx')).process()
+                    written = json.load(open(os.path.join(out, 'datapackage.json')))
+                    read = lambda p_: open(os.path.join(out, p_), 'rb').read()
+                else:
+                    os.makedirs(out)
+                    dp, stats = DF.Flow(src, DF.dump_to_zip(os.path.join(out, 'o.zip'), format='xlsx')).process()
+                    z = zipfile.ZipFile(os.path.join(out, 'o.zip'))
+                    written = json.loads(z.read('datapackage.json'))
+                    read = z.read
+        except Exception as e:
+            return dict(ok=False, why='an xlsx dump raised %s: %s' % (type(e).__name__, str(e)[:120]))
+        tb, tr = 0, 0
+        for r_, n in zip(written['resources'], shape):
+            try:
+                data = read(r_['path'])
+            except Exception as e:
+                return dict(ok=False, why='the recorded path %r is not there' % r_['path'])
+            nrows = max(0, openpyxl.load_workbook(io.BytesIO(data), read_only=True).worksheets[0].max_row - 1) if n else 0
+            if r_.get('bytes') != len(data) or r_.get('hash') != hashlib.md5(data).hexdigest() or r_.get('count_of_rows') != n or (n and nrows != n):
+                return dict(ok=False, why='bytes / hash / rows recorded for an .xlsx file are not those of the file',
+                            recorded=dict(bytes=r_.get('bytes'), hash=r_.get('hash'), rows=r_.get('count_of_rows')), measured=dict(bytes=len(data), hash=hashlib.md5(data).hexdigest(), rows=nrows))
+            tb += len(data)
+            tr += n
+        if written.get('bytes') != tb or written.get('count_of_rows') != tr:
+            return dict(ok=False, why='package totals of an xlsx dump are not the sums over the resources', recorded=[written.get('bytes'), written.get('count_of_rows')], sums=[tb, tr])
+        return dict(ok=True)
+    finally:
+        shutil.rmtree(root, ignore_errors=True)
+
+
 def run_case(case):
     setup_repo()
     root = tempfile.mkdtemp(prefix='c09-', dir=tlc.WORK_ROOT)
@@ -306,6 +353,12 @@ def run():
             rep.violation(c, dict(case=c, failed_clauses=failed, recorded=rec), category='/'.join(failed) + '/' + c['counters'] + '/' + c['incoming'] + ('/filehash' if c['filehash'] else ''))
         elif not v['ModelEq']:
             rep.model_drift('recorded counters differ from DumpStats.tla although every C09 clause holds', c)
+    for it in [dict(xlsx=True, shape=sh, target=tg) for sh in ([3], [0], [2, 0, 4], [1, 1]) for tg in ('path', 'zip')]:
+        out = xlsx_case(it)
+        rep.count(1, traces=1)
+        rep.mark_distinct(it)
+        if not out['ok']:
+            rep.violation(it, dict(case=it, **{k: v for k, v in out.items() if k != 'ok'}), category='xlsx/%s' % out['why'][:40])
     rep.sample(dict(case=cases[0], recorded=recs[0]))
     rep.notes['cases_total_enumerated_by_tlc'] = 20480
     rep.assumptions += ['the harness measures size, md5 and data-row count of every written file itself (csv.reader / json.loads)',
@@ -317,6 +370,12 @@ def replay(path):
     setup_repo()
     rec = json.load(open(path))
     c = rec['case']
+    if c.get('xlsx'):
+        out = xlsx_case(c)
+        print(out)
+        if not out['ok']:
+            print('VIOLATION property=%s replay=%s' % (PROP, path))
+        return 0 if out['ok'] else 1
     out = run_case(c)
     rep = Report(PROP)
     v = validate(rep, [out])[0]
